@@ -112,280 +112,293 @@ func isBoolType(t types.Type) bool {
 
 // ---- write side -------------------------------------------------------------------------
 
-type c09Event struct {
-	site   ssa.CallInstruction // call in Write (wrapper call or direct WriteAt)
-	data   ssa.Value
-	off    ssa.Value
-	cls    c09Class
-	why    string
-	direct bool
+// The write side is analysed on the call tree of Table.Write with every in-module helper that reaches a
+// device write or a sync inlined context-sensitively (its parameters and captured variables stand for the
+// values of the call site), so that the analysis does not depend on how Write is split into helpers.
+
+type c09An struct {
+	w        *World
+	r        *Report
+	write    *ssa.Function
+	roles    c09Roles
+	relevant map[*ssa.Function]bool
+	syncFns  map[*ssa.Function]bool
+	memo     map[string]*summary
+	classes  map[string]c09Class // per (stack, instruction)
+	reported map[string]bool
+	nWrites  int
+	nSyncs   int
+	checked  map[ssa.Instruction]bool
 }
 
-type c09Wrapper struct {
-	fn              *ssa.Function
-	dataIdx, offIdx int // parameter indices
-	writeCall       *ssa.Call
+const c09Bad = 5
+
+func c09State(order, dirty int) int { return order*2 + dirty }
+
+type c09Frame struct {
+	site   ssa.CallInstruction
+	callee *ssa.Function
+	mc     *ssa.MakeClosure // when the callee is a closure: where it was created (free-variable bindings)
 }
 
-func paramIndex(fn *ssa.Function, v ssa.Value) int {
-	v = stripConv(v)
-	for i, p := range fn.Params {
-		if p == v {
-			return i
+// resolveClosure finds the closure a called value denotes, looking through captured variables and cells.
+func resolveClosure(w *World, v ssa.Value, env map[ssa.Value][]ssa.Value) *ssa.MakeClosure {
+	p := w.prov(v, provOpts{env: env})
+	var found *ssa.MakeClosure
+	n := 0
+	for _, rt := range p.Roots {
+		if mc, ok := rt.Val.(*ssa.MakeClosure); ok {
+			found = mc
+			n++
 		}
 	}
-	return -1
+	if n == 1 {
+		return found
+	}
+	return nil
 }
 
-func c09Write(w *World, r *Report, write *ssa.Function, roles c09Roles) {
-	fname := fnName(write)
-	wrappers := map[*ssa.Function]*c09Wrapper{}
-	var events []*c09Event
-	evBySite := map[ssa.Instruction]*c09Event{}
+func stackKey(st []c09Frame) string {
+	var sb strings.Builder
+	for _, f := range st {
+		fmt.Fprintf(&sb, "%p/", f.site)
+	}
+	return sb.String()
+}
 
-	// find wrappers among the callees of Write and direct writes
-	for _, c := range calls(write, false, func(c ssa.CallInstruction) bool { return true }) {
-		if isWriteAt(c) {
-			a := argsOf(c)
-			ev := &c09Event{site: c, data: a[0], off: a[1], direct: true}
-			events = append(events, ev)
-			evBySite[c] = ev
-			continue
+func stackEnv(st []c09Frame) map[ssa.Value][]ssa.Value {
+	env := map[ssa.Value][]ssa.Value{}
+	for _, f := range st {
+		cc := f.site.Common()
+		for i, p := range f.callee.Params {
+			if i < len(cc.Args) {
+				env[p] = []ssa.Value{cc.Args[i]}
+			}
 		}
-		g := c.Common().StaticCallee()
-		if g == nil || !w.fnSet[g] || g.Blocks == nil {
-			continue
+		mc := f.mc
+		if mc == nil {
+			mc, _ = cc.Value.(*ssa.MakeClosure)
 		}
-		wcalls := calls(g, true, isWriteAt)
-		if len(wcalls) == 0 {
-			// does g reach a WriteAt deeper? then the write is hidden from classification
-			reach := w.reachableFrom([]*ssa.Function{g}, nil)
-			for f := range reach {
-				if len(calls(f, false, isWriteAt)) > 0 && f != g {
-					r.Undecided("C09-a", fname, "call "+fnName(g), w.relFile(c.Pos()),
-						"callee reaches a device write through "+fnName(f)+" more than one level down; cannot classify")
+		if mc != nil {
+			for i, fv := range f.callee.FreeVars {
+				if i < len(mc.Bindings) {
+					env[fv] = []ssa.Value{mc.Bindings[i]}
 				}
 			}
-			continue
-		}
-		wr := wrappers[g]
-		if wr == nil {
-			if len(wcalls) != 1 {
-				r.Undecided("C09-a", fname, "call "+fnName(g), w.relFile(c.Pos()), "callee performs several device writes; cannot classify per call site")
-				continue
-			}
-			wc, _ := wcalls[0].(*ssa.Call)
-			if wc == nil || wc.Parent() != g {
-				r.Undecided("C09-a", fname, "call "+fnName(g), w.relFile(c.Pos()), "device write is in a nested closure or deferred")
-				continue
-			}
-			a := argsOf(wc)
-			di, oi := paramIndex(g, a[0]), paramIndex(g, a[1])
-			if di < 0 || oi < 0 {
-				r.Undecided("C09-a", fname, "call "+fnName(g), w.relFile(wc.Pos()), "write data/offset are not parameters of the wrapper")
-				continue
-			}
-			wr = &c09Wrapper{fn: g, dataIdx: di, offIdx: oi, writeCall: wc}
-			wrappers[g] = wr
-		}
-		args := c.Common().Args
-		ev := &c09Event{site: c, data: args[wr.dataIdx], off: args[wr.offIdx]}
-		events = append(events, ev)
-		evBySite[c] = ev
-	}
-
-	// C09-a classify
-	for _, ev := range events {
-		ev.cls, ev.why = c09Classify(w, write, roles, ev.data, ev.off)
-		cons := fmt.Sprintf("write#%s", ev.why)
-		if ev.cls == clsNone {
-			r.Fail("C09-a", fname, cons, w.relFile(ev.site.Pos()), "device write whose data/offset provenance fits no region class or whose data and offset belong to different sides: "+ev.why)
-		} else {
-			r.Ok("C09-a", fname, "write "+ev.cls.String(), w.relFile(ev.site.Pos()), ev.why)
 		}
 	}
-
-	// C09-b ordering automaton: states 0..4 = number of regions written in order; 5 = out of order
-	const bad = 5
-	var badSites = map[ssa.Instruction]string{}
-	rule := &flowRule{w: w}
-	rule.step = func(ins ssa.Instruction, s int) (uint64, bool) {
-		ev := evBySite[ins]
-		if ev == nil {
-			return 0, false
-		}
-		if s == bad {
-			return 1 << bad, true
-		}
-		var want int
-		switch ev.cls {
-		case clsM:
-			return 0, false
-		case clsBA:
-			want = 0
-		case clsBH:
-			want = 1
-		case clsPA:
-			want = 2
-		case clsPH:
-			want = 3
-		default:
-			return 1 << bad, true
-		}
-		if s == want {
-			return 1 << uint(s+1), true
-		}
-		badSites[ins] = fmt.Sprintf("%s written when %d of the regions BA,BH,PA,PH had been written", ev.cls, s)
-		return 1 << bad, true
-	}
-	res := rule.run(write, 1, 0)
-	okOrder := true
-	for ins, why := range badSites {
-		okOrder = false
-		r.Fail("C09-b", fname, "order:"+evBySite[ins].cls.String(), w.relFile(ins.Pos()), "region write out of order: "+why+" (required: backup array, backup header, primary array, primary header)", trailTo(w, ins.Block())...)
-	}
-	nsucc := 0
-	for ret, m := range res.successReturns() {
-		nsucc++
-		if m&^(1<<4) != 0 {
-			okOrder = false
-			var st []string
-			bits(m, func(s int) { st = append(st, fmt.Sprint(s)) })
-			r.Fail("C09-b", fname, "success-return", w.relFile(instrPos(ret)), "a success return is reachable with only {"+strings.Join(st, ",")+"} of 4 regions written in order", trailTo(w, ret.Block())...)
-		}
-	}
-	if okOrder && nsucc > 0 {
-		r.Ok("C09-b", fname, "order BA<BH<PA<PH on all paths", w.relFile(write.Pos()), fmt.Sprintf("%d success return(s) all in state 4", nsucc))
-	}
-	if nsucc == 0 {
-		r.Fail("C09-b", fname, "success-return", w.relFile(write.Pos()), "no success return found")
-	}
-
-	// C09-c / C09-e on wrappers and on direct writes
-	var wl []*c09Wrapper
-	for _, x := range wrappers {
-		wl = append(wl, x)
-	}
-	sort.Slice(wl, func(i, j int) bool { return wl[i].fn.String() < wl[j].fn.String() })
-	for _, wr := range wl {
-		c09SyncAfterWrite(w, r, wr.fn, []*ssa.Call{wr.writeCall})
-	}
-	var direct []*ssa.Call
-	for _, ev := range events {
-		if ev.direct {
-			if c, ok := ev.site.(*ssa.Call); ok {
-				direct = append(direct, c)
-			} else {
-				r.Fail("C09-c", fname, "deferred/go write", w.relFile(ev.site.Pos()), "device write is deferred or asynchronous")
-			}
-		}
-	}
-	if len(direct) > 0 {
-		c09SyncAfterWrite(w, r, write, direct)
-	}
-	// every call of a wrapper must have its error checked
-	for _, ev := range events {
-		if ev.direct {
-			continue
-		}
-		c, ok := ev.site.(*ssa.Call)
-		if !ok {
-			r.Fail("C09-e", fname, "wrapper call "+ev.cls.String(), w.relFile(ev.site.Pos()), "write helper is deferred or asynchronous")
-			continue
-		}
-		ok2, why := errorIsChecked(c)
-		r.Check(ok2, "C09-e", fname, "error of write "+ev.cls.String(), w.relFile(c.Pos()), why, "error of the region write is not propagated: "+why)
-	}
+	return env
 }
 
-// c09SyncAfterWrite: in fn, after each of the given WriteAt calls and before a success return or
-// another write, a call that reaches Sync() on the same file must occur; errors of both are propagated.
-func c09SyncAfterWrite(w *World, r *Report, fn *ssa.Function, writes []*ssa.Call) {
-	fname := fnName(fn)
-	isW := map[ssa.Instruction]bool{}
-	for _, c := range writes {
-		isW[c] = true
-		ok, why := errorIsChecked(c)
-		r.Check(ok, "C09-e", fname, "error of WriteAt", w.relFile(c.Pos()), why, "error of the device write is not propagated: "+why)
+func (a *c09An) isSync(ins ssa.Instruction) bool {
+	c, ok := ins.(*ssa.Call)
+	if !ok {
+		return false
 	}
-	syncFns := map[*ssa.Function]bool{}
-	var syncCalls []*ssa.Call
-	isSync := func(ins ssa.Instruction) bool {
-		c, ok := ins.(*ssa.Call)
-		if !ok {
-			return false
-		}
-		if isSyncCall(c) {
-			return true
-		}
-		g := c.Common().StaticCallee()
-		if g == nil || !w.fnSet[g] {
-			return false
-		}
-		if v, ok := syncFns[g]; ok {
-			return v
-		}
-		v := c09IsSyncHelper(w, g)
-		syncFns[g] = v
+	if isSyncCall(c) {
+		return true
+	}
+	g := c.Common().StaticCallee()
+	if g == nil || !a.w.fnSet[g] {
+		return false
+	}
+	if v, ok := a.syncFns[g]; ok {
 		return v
 	}
-	// 0 = clean, 1 = written & unsynced, 2 = a second write happened while unsynced
-	var doubleAt ssa.Instruction
-	rule := &flowRule{w: w}
-	rule.step = func(ins ssa.Instruction, s int) (uint64, bool) {
-		if isW[ins] {
-			if s == 1 {
-				doubleAt = ins
-				return 1 << 2, true
-			}
-			return 1 << 1, true
+	v := c09IsSyncHelper(a.w, g)
+	a.syncFns[g] = v
+	return v
+}
+
+func (a *c09An) isRelevant(g *ssa.Function) bool {
+	if v, ok := a.relevant[g]; ok {
+		return v
+	}
+	a.relevant[g] = false
+	reach := a.w.reachableFrom([]*ssa.Function{g}, func(f *ssa.Function) bool { return strings.HasSuffix(a.w.pkgOf(f), "partition/gpt") })
+	for f := range reach {
+		if len(calls(f, false, isWriteAt)) > 0 || len(calls(f, false, isSyncCall)) > 0 {
+			a.relevant[g] = true
 		}
-		if isSync(ins) {
-			if s == 1 {
-				return 1 << 0, true
+	}
+	return a.relevant[g]
+}
+
+func (a *c09An) flow(fn *ssa.Function, s int, st []c09Frame) *summary {
+	key := fmt.Sprintf("%p|%d|%s", fn, s, stackKey(st))
+	if sm, ok := a.memo[key]; ok {
+		return sm
+	}
+	if len(st) > 6 {
+		a.r.Undecided("C09-a", fnName(a.write), "helper nesting", a.w.relFile(fn.Pos()), "device writes are nested more than 6 helpers deep")
+		return &summary{succ: 1 << uint(s), err: 1 << uint(s)}
+	}
+	a.memo[key] = &summary{} // recursion guard
+	env := stackEnv(st)
+	fname := fnName(a.write)
+	rule := &flowRule{w: a.w}
+	rule.inline = func(callee *ssa.Function, site ssa.CallInstruction) bool {
+		return !a.syncFns[callee] && !a.isSync(site.(ssa.Instruction)) && a.isRelevant(callee)
+	}
+	rule.dyn = func(site ssa.CallInstruction) []*ssa.Function {
+		if site.Common().IsInvoke() {
+			return nil
+		}
+		if mc := resolveClosure(a.w, site.Common().Value, env); mc != nil {
+			if g, ok := mc.Fn.(*ssa.Function); ok && a.isRelevant(g) {
+				return []*ssa.Function{g}
 			}
-			return 0, false
+		}
+		return nil
+	}
+	rule.summariseHook = func(g *ssa.Function, site ssa.CallInstruction, s2 int) *summary {
+		a.checkErr(site, "write helper "+g.Name())
+		fr := c09Frame{site: site, callee: g}
+		if site.Common().StaticCallee() == nil {
+			fr.mc = resolveClosure(a.w, site.Common().Value, env)
+		}
+		return a.flow(g, s2, append(append([]c09Frame{}, st...), fr))
+	}
+	rule.step = func(ins ssa.Instruction, s2 int) (uint64, bool) {
+		order, dirty := s2/2, s2%2
+		if c, ok := ins.(ssa.CallInstruction); ok && isWriteAt(c) {
+			args := argsOf(c)
+			ck := stackKey(st) + fmt.Sprintf("%p", ins)
+			cls, seen := a.classes[ck]
+			if !seen {
+				var why string
+				cls, why = c09Classify(a.w, a.write, a.roles, args[0], args[1], env)
+				a.classes[ck] = cls
+				a.nWrites++
+				at := a.w.relFile(ins.Pos())
+				if len(st) > 0 {
+					at = a.w.relFile(st[0].site.Pos())
+				}
+				if cls == clsNone {
+					a.r.Fail("C09-a", fname, "write#"+why, at, "device write whose data/offset provenance fits no region class or whose data and offset belong to different sides: "+why)
+				} else {
+					a.r.Ok("C09-a", fname, "write "+cls.String(), at, why)
+				}
+				if cc, isCall := c.(*ssa.Call); isCall {
+					a.checkErr(cc, "WriteAt")
+					// the file written is Write's own file parameter
+					pr := a.w.prov(recvOf(c), provOpts{env: env})
+					single := len(pr.Roots) == 1 && pr.Roots[0].Kind == RParam && pr.Roots[0].Param.Parent() == a.write
+					a.r.Check(single, "C09-c", fname, "write "+cls.String()+" targets the file given to Write", at, "", "the device write goes to something other than Write's file parameter: "+strings.Join(pr.rootStrings(), ","))
+				} else {
+					a.r.Fail("C09-c", fname, "deferred/go write", at, "device write is deferred or asynchronous")
+				}
+			}
+			if dirty == 1 {
+				k := "unsynced|" + ck
+				if !a.reported[k] {
+					a.reported[k] = true
+					a.r.Fail("C09-c", fname, "write "+cls.String()+" while the previous write is unsynced", a.w.relFile(ins.Pos()),
+						"a device write is reachable before the previous write was followed by a call reaching Sync(): the two regions share a durability epoch and may persist in either order")
+				}
+			}
+			next := order
+			if order != c09Bad {
+				want := map[c09Class]int{clsBA: 0, clsBH: 1, clsPA: 2, clsPH: 3}
+				switch cls {
+				case clsM:
+				case clsNone:
+					next = c09Bad
+				default:
+					if order == want[cls] {
+						next = order + 1
+					} else {
+						next = c09Bad
+						k := "order|" + ck
+						if !a.reported[k] {
+							a.reported[k] = true
+							a.r.Fail("C09-b", fname, "order:"+cls.String(), a.w.relFile(ins.Pos()),
+								fmt.Sprintf("region write out of order: %s written when %d of the regions BA,BH,PA,PH had been written (required: backup array, backup header, primary array, primary header)", cls, order))
+						}
+					}
+				}
+			}
+			return 1 << uint(c09State(next, 1)), true
+		}
+		if a.isSync(ins) {
+			c := ins.(*ssa.Call)
+			if !a.checked[ins] {
+				a.nSyncs++
+				a.checkErr(c, "sync")
+				var target ssa.Value
+				if isSyncCall(c) {
+					target = recvOf(c)
+				} else if len(c.Call.Args) > 0 {
+					target = c.Call.Args[0]
+				}
+				pr := a.w.prov(target, provOpts{env: env})
+				single := len(pr.Roots) == 1 && pr.Roots[0].Kind == RParam && pr.Roots[0].Param.Parent() == a.write
+				a.r.Check(single, "C09-c", fname, "sync targets the file given to Write #"+ordinal(ins.Parent(), c), a.w.relFile(ins.Pos()), "", "Sync is applied to something other than the file that is written: "+strings.Join(pr.rootStrings(), ","))
+			}
+			return 1 << uint(c09State(order, 0)), true
 		}
 		return 0, false
 	}
-	res := rule.run(fn, 1, 0)
-	ok := true
-	for ret, m := range res.successReturns() {
-		if m&(1<<1|1<<2) != 0 {
-			ok = false
-			r.Fail("C09-c", fname, "sync-after-write", w.relFile(instrPos(ret)), "a success return is reachable after a device write with no call reaching Sync() in between", trailTo(w, ret.Block())...)
+	res := rule.run(fn, 1<<uint(s), 0)
+	succ, errm := res.exitMasks()
+	sm := &summary{succ, errm}
+	a.memo[key] = sm
+	if len(st) == 0 {
+		// root: judge the success returns
+		nsucc := 0
+		okAll := true
+		for ret, m := range res.successReturns() {
+			nsucc++
+			bits(m, func(s2 int) {
+				order, dirty := s2/2, s2%2
+				if order != 4 {
+					okAll = false
+					a.r.Fail("C09-b", fname, "success-return", a.w.relFile(instrPos(ret)), fmt.Sprintf("a success return is reachable with %d of the 4 regions written in order (5 = out of order)", order), trailTo(a.w, ret.Block())...)
+				}
+				if dirty != 0 {
+					okAll = false
+					a.r.Fail("C09-c", fname, "sync-after-last-write", a.w.relFile(instrPos(ret)), "a success return is reachable after a device write with no call reaching Sync() in between", trailTo(a.w, ret.Block())...)
+				}
+			})
+		}
+		if nsucc == 0 {
+			a.r.Fail("C09-b", fname, "success-return", a.w.relFile(fn.Pos()), "no success return found")
+		} else if okAll {
+			a.r.Ok("C09-b", fname, "order BA<BH<PA<PH on all paths", a.w.relFile(fn.Pos()), fmt.Sprintf("%d success return(s), all with 4 regions in order and synced", nsucc))
+			a.r.Ok("C09-c", fname, "sync-after-write", a.w.relFile(fn.Pos()), "every device write is followed by a call reaching Sync() before the next write or a success return")
 		}
 	}
-	if doubleAt != nil {
-		ok = false
-		r.Fail("C09-c", fname, "write-while-unsynced", w.relFile(doubleAt.Pos()), "a second device write is reachable before the previous one was synced")
+	return sm
+}
+
+func (a *c09An) checkErr(site ssa.CallInstruction, what string) {
+	ins := site.(ssa.Instruction)
+	if a.checked[ins] {
+		return
 	}
-	if ok {
-		r.Ok("C09-c", fname, "sync-after-write", w.relFile(fn.Pos()), "every path from a device write to a success return passes a call reaching Sync()")
+	a.checked[ins] = true
+	c, ok := site.(*ssa.Call)
+	if !ok {
+		a.r.Fail("C09-e", fnName(site.Parent()), "error of "+what, a.w.relFile(site.Pos()), what+" is deferred or asynchronous")
+		return
 	}
-	// sync errors propagated; sync on the same file as the write
-	allInstrs(fn, func(ins ssa.Instruction) {
-		if !isSync(ins) {
-			return
-		}
-		c := ins.(*ssa.Call)
-		syncCalls = append(syncCalls, c)
-		ok, why := errorIsChecked(c)
-		r.Check(ok, "C09-c", fname, "error of sync", w.relFile(c.Pos()), why, "the sync error is not propagated: "+why)
-		// same file
-		var fileArg ssa.Value
-		if isSyncCall(c) {
-			fileArg = recvOf(c)
-		} else if len(c.Common().Args) > 0 {
-			fileArg = c.Common().Args[0]
-		}
-		for _, wc := range writes {
-			same := sameRootValue(w, fileArg, recvOf(wc))
-			r.Check(same, "C09-c", fname, "sync targets the written file", w.relFile(c.Pos()), "same root value", "Sync is applied to a different value than the one written to")
-		}
-	})
-	if len(syncCalls) == 0 {
-		r.Fail("C09-c", fname, "sync call", w.relFile(fn.Pos()), "no call reaching Sync() found in the function that performs the device write")
+	ok2, why := errorIsChecked(c)
+	rule := "C09-e"
+	if what == "sync" {
+		rule = "C09-c"
+	}
+	a.r.Check(ok2, rule, fnName(site.Parent()), "error of "+what+" #"+ordinal(site.Parent(), site), a.w.relFile(c.Pos()), why, "the error of the "+what+" is not propagated: "+why)
+}
+
+func c09Write(w *World, r *Report, write *ssa.Function, roles c09Roles) {
+	a := &c09An{w: w, r: r, write: write, roles: roles, relevant: map[*ssa.Function]bool{}, syncFns: map[*ssa.Function]bool{},
+		memo: map[string]*summary{}, classes: map[string]c09Class{}, reported: map[string]bool{}, checked: map[ssa.Instruction]bool{}}
+	a.flow(write, c09State(0, 0), nil)
+	if a.nSyncs == 0 {
+		r.Fail("C09-c", fnName(write), "sync call", w.relFile(write.Pos()), "no call reaching Sync() is made while writing the table")
+	}
+	if a.nWrites == 0 {
+		r.Fail("C09-a", fnName(write), "device writes", w.relFile(write.Pos()), "no device write found in Table.Write")
 	}
 }
 
@@ -454,10 +467,10 @@ func c09IsSyncHelper(w *World, g *ssa.Function) bool {
 }
 
 // c09Classify classifies a device write by provenance of data and offset.
-func c09Classify(w *World, write *ssa.Function, roles c09Roles, data, off ssa.Value) (c09Class, string) {
+func c09Classify(w *World, write *ssa.Function, roles c09Roles, data, off ssa.Value, env map[ssa.Value][]ssa.Value) (c09Class, string) {
 	opaque := func(f *ssa.Function) bool { return f == roles.headerEnc || f == roles.arrayEnc || f == roles.sectorFn }
-	dp := w.prov(data, provOpts{followCalls: true, opaque: opaque})
-	op := w.prov(off, provOpts{followCalls: true, opaque: opaque})
+	dp := w.prov(data, provOpts{followCalls: true, opaque: opaque, env: env})
+	op := w.prov(off, provOpts{followCalls: true, opaque: opaque, env: env})
 	// data side
 	dataKind := "" // "array", "hdrP", "hdrB", "mbr"
 	var dk []string
@@ -514,7 +527,14 @@ func c09Classify(w *World, write *ssa.Function, roles c09Roles, data, off ssa.Va
 		return clsNone, "offset mixes " + strings.Join(ok, "+")
 	} else {
 		// header or MBR offsets
-		if c, isC := constInt(stripConv(off)); isC {
+		var offConst *int64
+		if len(op.Roots) == 1 && op.Roots[0].Kind == RConst && len(op.BinOps) == 0 {
+			if cv, isC := constInt(op.Roots[0].Val); isC {
+				offConst = &cv
+			}
+		}
+		if offConst != nil {
+			c := *offConst
 			if c >= 0 && c < 512 {
 				offKind = "mbr"
 			} else {
@@ -903,4 +923,14 @@ func c09ReturnsWrapped(w *World, f *ssa.Function, at *ssa.BasicBlock, target typ
 		cur = caller
 	}
 	return false
+}
+
+func paramIndex(fn *ssa.Function, v ssa.Value) int {
+	v = stripConv(v)
+	for i, p := range fn.Params {
+		if p == v {
+			return i
+		}
+	}
+	return -1
 }
